@@ -45,6 +45,9 @@ class FakeUdp:
         self.bound = addr
 
     def sendto(self, data, addr):
+        if addr in getattr(self, 'unreachable', ()):
+            # the answer can not be sent (a datagram from source port 0, no route back, ...)
+            raise OSError(22, 'Invalid argument')
         self.sent.append((data, addr))
 
     def recvfrom(self, n):
@@ -209,6 +212,10 @@ def check_sequence(ctx, case):
         return
     ports = expected_ports(case['ifaces'])
     dgrams = [(d, ('10.0.0.%d' % (i % 250 + 1), 4000 + i)) for i, d in enumerate(case['datagrams'])]
+    unreachable = {i for i in case.get('unreachable', []) if isinstance(i, int) and 0 <= i < len(dgrams)}
+    for i in unreachable:
+        dgrams[i] = (dgrams[i][0], (dgrams[i][1][0], 0))
+    sock.unreachable = {dgrams[i][1] for i in unreachable}
     dgrams.append((VALID, ('10.9.9.9', 9999)))
     sock.script = list(dgrams)
     mod.marks.clear()
@@ -222,13 +229,17 @@ def check_sequence(ctx, case):
     marks = mod.marks + [len(sock.sent)]
     for i, (data, addr) in enumerate(dgrams):
         ctx.ev()
-        sub = {'kind': 'sequence', 'eid': case['eid'], 'desc': case['desc'], 'ifaces': case['ifaces'], 'datagrams': case['datagrams'][:i + 1]}
+        sub = {'kind': 'sequence', 'eid': case['eid'], 'desc': case['desc'], 'ifaces': case['ifaces'], 'datagrams': case['datagrams'][:i + 1], 'unreachable': case.get('unreachable', [])}
         if i >= len(mod.marks):
             cause = dgrams[len(mod.marks) - 1][0] if mod.marks else b''
             ctx.finding(f'responder-killed:{type(died).__name__ if died else "stopped"}', dict(sub, datagrams=case['datagrams'][:len(mod.marks)]),
                         f'after datagram {cause[:60]!r}: {died!r}; later requests are not answered')
             return
         answers = sock.sent[marks[i]:marks[i + 1]]
+        if i in unreachable:
+            # nothing can be delivered to this sender; what counts is that the later requests are still answered
+            ctx.ok('unreachable-sender-survived')
+            continue
         if is_request(data):
             want = [(p, addr) for p in ports]
             got = []
@@ -275,8 +286,9 @@ def sequence_case(draw):
     ifaces = draw(st.lists(st.sampled_from(['tcp://10767', 'tcp://5000', 'ws://8080']), min_size=1, max_size=3, unique=True))
     dg = draw(st.lists(st.one_of(st.sampled_from(HOSTILE), st.sampled_from(ALSO_VALID), st.just(VALID), st.binary(max_size=30),
                                  st.text('{}[]":, SECoPdiscover01', max_size=30).map(lambda s: s.encode())), min_size=0, max_size=6))
+    unreachable = sorted(draw(st.sets(st.integers(0, max(0, len(dg) - 1)), max_size=2))) if dg and draw(st.integers(0, 3)) == 0 else []
     return {'kind': 'sequence', 'eid': draw(st.sampled_from(['eq', 'node.example.org', 'ä'])), 'desc': draw(st.sampled_from(['', 'a node', 'x' * 600])),
-            'ifaces': ifaces, 'datagrams': [d.hex() for d in dg]}
+            'ifaces': ifaces, 'datagrams': [d.hex() for d in dg], 'unreachable': unreachable}
 
 
 def run_shard(ctx, shard):
@@ -295,6 +307,8 @@ def run_shard(ctx, shard):
             for pre in ([], [VALID], [b'5']):
                 run_case(ctx, {'kind': 'sequence', 'eid': 'eq', 'desc': 'd', 'ifaces': ['tcp://10767', 'tcp://2'],
                                'datagrams': [x.hex() for x in pre + [h]]})
+            run_case(ctx, {'kind': 'sequence', 'eid': 'eq', 'desc': 'd', 'ifaces': ['tcp://10767', 'tcp://2'],
+                           'datagrams': [VALID.hex(), h.hex()], 'unreachable': [0]})
         return
     if shard['idx'] % 2:
         drive(identity_case(), lambda case: check_identity(ctx, case), shard['n'], ctx.seed * 1000 + shard['idx'])
